@@ -100,6 +100,9 @@ def run_fault(ps, w, menu, nerr=1, pinned=None, obstruct=False):
             rec["relation"] = call.relation(w, rec["vals"])
         return rec
     if res == "ok":
+        # reported success although an operation failed on the way: what the call reports is still true
+        for p in call.check_value(w, ps, val, res):
+            bad.append(("C02:reported-value-wrong-after-an-io-error-on-the-way", p))
         # reported success: the whole effect must have been achieved
         oke, _ = ps.valid(w.state_eq(post, exp))
         nob += 1
